@@ -527,6 +527,8 @@ class UVLReader(TextToModel):
             )
 
         # Find ParseTree node of root feature
+        if self.parse_tree.features() is None:
+            raise FlamaException("The model has no 'features' section.")
         root_feature_ast = self.parse_tree.features().feature()
         # Get the root and process it
         feature_text = root_feature_ast.reference().getText().replace('"', '')
